@@ -482,16 +482,22 @@ impl WalWriter {
         })?;
         vpoint!("rotate.after_rename", &self.path);
 
-        // Create new WAL file
-        self.file = OpenOptions::new()
+        // Create new WAL file. If that fails the rename is undone: otherwise the
+        // open handle keeps appending to a file that now carries a rotated name,
+        // and the next checkpoint deletes it from under the writer.
+        self.file = match OpenOptions::new()
             .create(true)
             .append(true)
             .open(&self.path)
-            .map_err(|e| {
-                P2PError::Storage(StorageError::Database(
+        {
+            Ok(file) => file,
+            Err(e) => {
+                let _ = std::fs::rename(&rotated_path, &self.path);
+                return Err(P2PError::Storage(StorageError::Database(
                     format!("Failed to create new WAL: {e}").into(),
-                ))
-            })?;
+                )));
+            }
+        };
 
         self.current_size = 0;
         self.entry_count = 0;
